@@ -22,6 +22,23 @@ fn main() {
         usage();
     }
     explore::install_quiet_panic_hook();
+    if std::env::var("FJV_LOUD").is_ok() {
+        struct L;
+        impl log::Log for L {
+            fn enabled(&self, m: &log::Metadata) -> bool {
+                m.level() <= log::Level::Warn
+            }
+            fn log(&self, r: &log::Record) {
+                if self.enabled(r.metadata()) {
+                    eprintln!("[{}] {}", r.level(), r.args());
+                }
+            }
+            fn flush(&self) {}
+        }
+        static LOGGER: L = L;
+        let _ = log::set_logger(&LOGGER);
+        log::set_max_level(log::LevelFilter::Warn);
+    }
     let code = match args[1].as_str() {
         "check" => {
             if args.len() < 4 {
@@ -53,6 +70,10 @@ fn main() {
                     props::c02::run(tier)
                 }
                 "C14" => props::c14::run(tier),
+                "C17" => {
+                    world::install_seq_hooks_lazy();
+                    props::c17::run(tier)
+                }
                 "C10" => {
                     world::install_seq_hooks();
                     props::c10::run(tier)
@@ -115,6 +136,7 @@ fn main() {
                     props::c02::replay(&v)
                 }
                 "C14" => props::c14::replay(&v),
+                "C17" => props::c17::replay(&v),
                 "C10" => {
                     world::install_seq_hooks();
                     props::c10::replay(&v)
@@ -147,6 +169,7 @@ fn main() {
         "e3shard" => e3::shard_main(&args[2..], &|prop, tier| match prop {
             "C14" => props::c14::bodies(tier),
             "C06" => props::c06::bodies(tier),
+            "C17" => props::c17e3::bodies(tier),
             _ => vec![],
         }),
         "drv" => {
